@@ -629,13 +629,21 @@ func (st *Stack) compactRange(first, last int, expiration *LogExpirationConfig) 
 	if err != nil {
 		return false, err
 	}
+	defer func() {
+		if tmpTable != "" {
+			os.Remove(tmpTable)
+		}
+	}()
 
-	lockFileName = st.listFile + ".lock"
-	lockFile, err = os.OpenFile(lockFileName, os.O_EXCL|os.O_CREATE|os.O_WRONLY, 0644)
+	lockFile, err = os.OpenFile(st.listFile+".lock", os.O_EXCL|os.O_CREATE|os.O_WRONLY, 0644)
+	if os.IsExist(err) {
+		// Somebody else holds the lock; it is theirs to release.
+		return false, nil
+	}
 	if err != nil {
 		return false, err
 	}
-
+	lockFileName = st.listFile + ".lock"
 	defer lockFile.Close()
 
 	fn := formatName(
@@ -649,6 +657,7 @@ func (st *Stack) compactRange(first, last int, expiration *LogExpirationConfig) 
 		if err := os.Rename(tmpTable, destTable); err != nil {
 			return false, err
 		}
+		tmpTable = ""
 	}
 
 	var names []string
